@@ -90,6 +90,9 @@ def search(pid, record):
                 return w
         return {"found": True, "scenario": "conn-search", "kind": "process-died",
                 "observed": "replayer conn-search exited with %d: %s" % (p.returncode, p.stderr[-400:]), "expected": "no panic"}
+    if pid == "C09":
+        import durability
+        return durability.search(binary)
     if record.get("file", "").startswith("src/storage/"):
         seed = os.environ.get("VERIF_SEED", "0") or "0"
         p = _run(binary, ["store-search", seed], timeout=600)
@@ -132,6 +135,10 @@ def execute(w):
         p = _run(binary, args, timeout=600)
         found = p.returncode != 0 or any(l.startswith("{") and json.loads(l).get("found") for l in p.stdout.splitlines())
         return (not found), p.stdout.strip()[-700:]
+    if w.get("scenario") == "durability":
+        import durability
+        r = durability.search(binary)
+        return (not r.get("found")), json.dumps(r)[:700]
     if w.get("scenario") == "decimal-search":
         p = _run(binary, ["decimal-search", "200000"])
         found = p.returncode != 0 or any(l.startswith("{") and json.loads(l).get("found") for l in p.stdout.splitlines())
